@@ -211,6 +211,8 @@ def check_pair(out: Outcome, rng, ref, test, nb, lines, expect) -> None:
                 else:
                     out.violation("JS: NaN for identical constant samples", r)
                 continue
+            if abs(got) <= 1e-7:
+                continue            # both samples are one single value and the distance is 0: what the property says ("zero for identical samples"); the formula's 0/0 is the recorded finding
         if name == "js" and not math.isnan(want) and want <= 1e-7 and (math.isnan(got) or abs(got) <= 1e-7):
             # JS = sqrt(sum/2): for (numerically) equal distributions the sum is 0 up to rounding, its square root amplifies 1e-16 to 1e-8 and a
             # slightly negative sum gives NaN inside scipy.spatial.distance.jensenshannon
@@ -254,7 +256,8 @@ def check_pair(out: Outcome, rng, ref, test, nb, lines, expect) -> None:
             out.violation(f"{name}: depends on sample order: {got!r} vs {shuf!r} after shuffling", r)
         if not (name == "js" and min(ref) == max(ref)):
             same = dist(cls, ref, list(ref), **kw)
-            if not (abs(same) <= 1e-12):
+            # (Hellinger and JS are square roots of a sum that is 0 up to rounding for identical samples: 1e-16 under the root is 1e-8)
+            if not (abs(same) <= (1e-7 if name in ("hellinger", "js") else 1e-12)):
                 out.violation(f"{name}: distance of a sample to itself is {same!r}, not 0", r)
         if name in TRANSPORT:
             for a, b in ((2.0, 1.0), (0.25, -3.0), (-1.0, 0.0), (-4.0, 2.5)):
@@ -347,14 +350,13 @@ def run(out: Outcome) -> None:
             r = {"ref": [c] * 4, "test": [c] * 3, "num_bins": 5, "detector": name}
             try:
                 got = dist(cls, [c] * 4, [c] * 3, **({} if name in TRANSPORT else {"num_bins": 5}))
-            except IndexError as e:
+            except Exception as e:  # noqa: BLE001
+                # the recorded finding is "an exception instead of 0 for a single value of magnitude >= 2^53 (the +-0.5 widening of the degenerate range is absorbed)":
+                # identified by the failing input, not by the class of the exception a particular binning routine happens to raise there
                 if abs(c) >= 2.0**53 and name not in TRANSPORT and "KF-C10-4" in out.findings:
                     out.findings["KF-C10-4"].hits += 1
                 else:
-                    out.violation(f"{name}: IndexError for identical constant samples of value {c!r}: {e}", r)
-                continue
-            except Exception as e:  # noqa: BLE001
-                out.violation(f"{name}: {type(e).__name__} for identical constant samples of value {c!r}: {e}", r)
+                    out.violation(f"{name}: {type(e).__name__} for identical constant samples of value {c!r}: {e}", r)
                 continue
             if not abs(got) <= 1e-12:
                 out.violation(f"{name}: distance {got!r} for identical constant samples of value {c!r}, expected 0", r)
